@@ -1,10 +1,14 @@
 From Coq Require Import extraction.Extraction extraction.ExtrOcamlBasic.
-From TU Require Import Base C20_Model C20_Words.
-(* the words of every line (regex matches of split_words, clusters, is_alphabetic / is_punctuation) are
-   computed by the model from the RAW line (clean + NFKC + UCD_Model + UAX29_Model); the oracle words of
-   the harness must equal them (ucd_agree), their clusters must be the model's segmentation (uax29_agree);
-   check additionally demands that all builds of a case return the same dictionary (builds_same) *)
-Definition run := run_C20u.
-Definition check := check_C20u.
-Definition agree (inp m i : val) : bool := agree_C20u inp m i.
+From TU Require Import Base C20_Model C20_Words C20_Bytes C20_Float.
+(* Third session, topic M.  The corpus files enter as BYTES: the model reads the lines itself (Lines_Model.lossy_lines,
+   the crate's lossy reader that Dictionary::create uses since D16) and computes the words of every line from them
+   (clean + NFKC + UCD_Model + UAX29_Model); the dictionary file is arbitrary bytes (a line that is not UTF-8 is a
+   load error); the keys are segmented and the queries NFKC-normalised and segmented by the model; the relative
+   frequencies and the distances of get / get_closest are binary64 values (Flocq, C12_Float) compared bit for bit, and
+   get_closest is compared exactly on the implementation's own iteration order.  The oracles the harness still sends
+   (lines, words, clusters, normalised queries) are cross-checks inside agree (reader_agree, ucd_agree, uax29_agree,
+   query_agree); check additionally demands identical builds (builds_same) and relative frequencies in [0,1]. *)
+Definition run := run_C20f.
+Definition check := check_C20f.
+Definition agree (inp m i : val) : bool := agree_C20f inp m i.
 Extraction "model.ml" run check agree.
